@@ -369,6 +369,13 @@ def conf_bytes(exp):
             continue
         if isinstance(doc, dict) and isinstance(doc.get('components'), list):
             doc['components'] = sorted(doc['components'], key=lambda c: (c.get('stage', 0), str(c.get('name'))))
+            for c in doc['components']:
+                wa = c.get('workflowAttributes')
+                # isRepeat is derived from repeatInterval by the loader; materialising the derived value on the first
+                # load+store (when the interval was inherited from a blueprint) does not change the description
+                if isinstance(wa, dict) and 'isRepeat' in wa and 'repeatInterval' in wa \
+                        and wa['isRepeat'] == (wa['repeatInterval'] not in (None, 0)):
+                    del wa['isRepeat']
         out[f] = json.dumps(doc, sort_keys=True, default=repr)
     return out
 
